@@ -1525,6 +1525,7 @@ func main() {
 	runCallbackHints()
 	runRSS14()
 	runRSS14Distorted()
+	runRSS14LongHistory()
 	runMultiSymbol()
 	runSourceFaults()
 	chk.Finish()
